@@ -121,6 +121,8 @@ var c08Runtime = []string{
 	"def t { } bind t -> struct bind t -> slice print 1 / 0",
 	"print - \"s\"",
 	"var a = 1 print ( a < \"x\" ) and 2",
+	"def t { } bind u -> struct print 1 print 2",
+	"def t { } def t { } bind t:1 -> slice def z { }",
 }
 
 // render joins tokens with single spaces except in two gaps that get a
@@ -308,5 +310,41 @@ func C08_BigOffsets() {
 		_, _, err2 := bcl.Execute(p2)
 		verif.Assert(errText(err2) == errText(xerr), "same after dump and load")
 	}
+	verif.Reach("checked")
+}
+
+// C08_SplitPos: positions after a chunk boundary inside a multi-byte
+// character: the runtime error position and the stored line table must be
+// those of the unsplit source.
+func C08_SplitPos() {
+	p := verif.Bytes("payload", 2)
+	ctx := verif.Choice("context", 2)
+	pre := []string{"# c", "print \"a"}[ctx]
+	suf := []string{"\nprint 1\nprint 2/0\n", "b\"\nprint 1\nprint 2/0\n"}[ctx]
+	src := pre + string(p) + suf
+	k := len(pre) + 1
+	f := &symio.File{Data: []byte(src), Script: []symio.Step{{N: k}}, FileName: "src"}
+	out, log := &symio.Writer{}, &symio.Writer{}
+	prog, err := bcl.ParseFile(f, bcl.OptOutput(out), bcl.OptLogger(log))
+	toks := refbcl.Tokens(src)
+	_, syn := refbcl.ParseProgram(toks)
+	verif.Observe("rejected", err != nil)
+	verif.Assert((err != nil) == (syn != nil), "same acceptance as the reference")
+	if err != nil || syn != nil {
+		verif.Reach("rejected")
+		return
+	}
+	lfs := bcl.VerifLfs(prog)
+	want := refbcl.NewlineOffsets(src)
+	same := len(lfs) == len(want)
+	if same {
+		for i := range lfs {
+			same = same && lfs[i] == want[i]
+		}
+	}
+	verif.Assert(same, "stored line table = newline offsets of the source")
+	_, _, xerr := bcl.Execute(prog)
+	// the failing operation ends just before the final newline
+	verif.Assert(strings.HasPrefix(errText(xerr), "runtime error: line "+c08Loc(src, len(src)-1)+": "), "runtime error position after a split character")
 	verif.Reach("checked")
 }
